@@ -28,7 +28,7 @@ META = {
     "category": "proof",
     "technique": "Coq model + theorems; differential runs against the extracted model; strace-recorded system calls replayed into crash images",
     "text": "Coq theorems (Mani/Props_C13.v, closed under the global context) over an executable model of mani/src/lib.rs (Edit, writer, BufRead::lines, ManifestIterator::next, read_mani, open/_apply/rollover/verify) on a small file-system model with hard links and durable prefixes: a transition system of open/apply/rollover/close with a crash at ANY prefix of the mutating system calls of any operation (process death or power loss with arbitrary torn tails), any number of times; proved for all histories: reopening yields the acknowledged state or that plus the one whole edit in flight, or fails with corruption (never a panic, an I/O error, a lost acknowledged edit or a partial edit); crash-free reopen = fold of all edits; process-death crashes always reopen; the fragments chain and Manifest::verify reports nothing on any open manifest, also after crashes; parse(serialise) and iterator round trips; every truncation of a fragment reads as a prefix (>= the complete edits) or fails — no assumption on the checksum; the Edit API accepts exactly what the reader takes back.  Tied to the code on every run by differential runs (real Manifest vs extracted model vs independent Python oracle) incl. strace-recorded call sequences, crash images materialised from the recorded calls (re-opened twice), and real SIGKILL injections.",
-    "note": "Trusted: Coq kernel; extraction (ExtrOcamlBasic) + ocaml/mani driver (supplies crc32c); harness c13; strace; the OS semantics of Mani/Fs.v (completed calls atomic and ordered, link/rename/unlink/create durable on return, data durable up to the last fdatasync); single writer (the lock file is exercised, not modelled); I/O faults, foreign file names in the directory and u64 overflow of ratio*size are outside the model.",
+    "note": "Trusted: Coq kernel; extraction (ExtrOcamlBasic) + ocaml/mani driver (supplies crc32c); harness c13; strace; the OS semantics of Mani/Fs.v (completed calls atomic and ordered, link/rename/unlink/create durable on return, data durable up to the last fdatasync); single writer = theorem over the lock-file model Mani/Lock.v (fcntl record locks: one owning process, released when the process closes any descriptor of the file), exercised on two real processes; I/O faults, foreign file names in the directory and u64 overflow of ratio*size are outside the model.",
 }
 
 PROPS = "theories/Mani/Props_C13.v"
@@ -462,6 +462,38 @@ class HistoryOracle:
                     return
             elif t[0] == "close":
                 is_open = False
+            elif t[0] in ("selfopen", "lockprobe", "foreign"):
+                # the exclusive lock file: while a handle is live nobody else gets in — not a second
+                # open inside the process, not another process
+                r = items[0] if items else ""
+                want = {"selfopen": ("self:lock-not-obtained", "self:opened"), "lockprobe": ("lock:locked", "lock:free"),
+                        "foreign": ("foreign:locked", "foreign:ok")}[t[0]][0 if is_open else 1]
+                if r.split(" ")[0] != want:
+                    self.bad("op %d `%s`: %s (expected %s) — %s" % (idx, op[:40], r[:60], want,
+                             "the manifest lock no longer excludes others while a handle is live" if is_open else "the lock was not released"))
+                    return
+                if t[0] == "foreign" and not is_open:
+                    # the other process legitimately ran its ops; which edits it really applied is read
+                    # from its own per-op results (an op can fail: rollover of a never-written manifest)
+                    subs = [x.strip() for x in " ".join(t[1:]).split("/")]
+                    ress = r.split(" ", 1)[1].split("/") if " " in r else []
+                    for sub, res in zip(subs, ress):
+                        st_ = sub.split()
+                        if st_ and st_[0] == "apply" and res.startswith("chk[") and res.endswith(",ok"):
+                            flags = res[4:res.index("]")].split(",") if not res.startswith("chk[]") else []
+                            e = Edit()
+                            for raw, fl in zip(st_[1:], flags):
+                                if fl != "ok":
+                                    continue
+                                p = raw.split(":")
+                                if p[0] == "a":
+                                    e.add.add(bytes.fromhex(p[1]))
+                                elif p[0] == "r":
+                                    e.rm.add(bytes.fromhex(p[1]))
+                                else:
+                                    e.info[int(p[1])] = bytes.fromhex(p[2])
+                            lineage.append(lineage[-1].apply(e))
+                            self.mani_exists = True
             elif t[0] == "cut":
                 cut_pending = True
                 # an arbitrary cut may destroy durable (synced) text, e.g. the roll-up a fragment
@@ -969,6 +1001,70 @@ def sigkill_validation(chk, cases, hxbin, rng, nkills, cstats, corr_bad):
         shutil.rmtree(kroot, ignore_errors=True)
 
 
+def lock_spec(events):
+    """the property of an exclusive lock, stated directly: a try-lock succeeds iff no handle is live
+    anywhere (in any process); unlock drops that process's newest handle"""
+    live = {0: 0, 1: 0}
+    out = []
+    for ev in events:
+        p, c = int(ev[:-1]), ev[-1]
+        if c == "l":
+            if live[0] + live[1] == 0:
+                live[p] += 1
+                out.append("got")
+            else:
+                out.append("none")
+        else:
+            if live[p] > 0:
+                live[p] -= 1
+                out.append("ok")
+            else:
+                out.append("nohandle")
+    return out
+
+
+def gen_lock_events(rng):
+    evs = []
+    for _ in range(rng.range(3, 12)):
+        k = rng.below(10)
+        p = rng.below(2)
+        evs.append("%d%s" % (p, "l" if k < 7 else "u"))
+    return evs
+
+
+def gen_lock_history(rng, stats):
+    ops = ["open"]
+    is_open = True
+    pool, live = [], set()
+    for _ in range(rng.range(3, 9)):
+        k = rng.below(10)
+        if k < 3 and is_open:
+            raws = gen_raw_ops(rng, pool, live, stats, bad_ok=False)
+            ops.append(("apply " + " ".join(raws)).strip())
+        elif k < 5:
+            ops.append("selfopen")
+        elif k < 6:
+            ops.append("lockprobe")
+        elif k < 8:
+            sub = []
+            for _ in range(rng.range(1, 3)):
+                if rng.chance(1, 4):
+                    sub.append("rollover")
+                else:
+                    sub.append(("apply " + " ".join(gen_raw_ops(rng, pool, live, stats, bad_ok=False))).strip())
+            ops.append("foreign " + " / ".join(sub))
+        elif is_open:
+            ops.append("close")
+            is_open = False
+        else:
+            ops.append("open")
+            is_open = True
+    if not is_open:
+        ops.append("open")
+    ops += ["dump", "verify", "close", "open", "dump", "verify"]
+    return "ratio=%d; " % rng.choice([1, 2, 3, 1000]) + "; ".join(ops)
+
+
 def source_literals_ok():
     """the literals the model retypes from mani/src/lib.rs (no numeric consts exist there)"""
     src = open(os.path.join(vlib.REPO, "mani", "src", "lib.rs")).read()
@@ -1102,12 +1198,58 @@ def run(chk):
             corr_bad.append({"tag": "format", "kind": "format", "case": "ratio=2; " + op, "impl": io, "model": mo})
 
     lap("format")
-    # ---------------------------------------------------------------- lock file (direct test, not modelled)
-    lock_out = run_lines(hxbin, ["ratio=2; open; lockprobe; close; lockprobe"], chk.work, "lock", marker="@@")[1]
-    lock_ok = bool(lock_out) and lock_out[0].split(" ;; ")[1:] == ["lock:locked", "", "lock:free"]
-    if not lock_ok:
-        prop_bad.append({"tag": "lock", "kind": "lock", "case": "ratio=2; open; lockprobe; close; lockprobe", "what": "a second process obtained the manifest lock while a handle was open (or could not after it was dropped)", "impl_out": lock_out})
-
+    # ---------------------------------------------------------------- the exclusive lock file
+    # (a) the protocol itself (utilz Lockfile::lock / drop on one file) in two real processes, vs
+    #     the extracted model Mani/Lock.v and vs the specification of an exclusive lock;
+    # (b) histories with a second open inside the process, lock probes and a second writer process
+    rl = rng.fork()
+    lstats = {"protocol_cases": 0, "protocol_events": 0, "relock_by_holder": 0, "histories": 0}
+    lock_cases = [(c["case"], "corpus:" + fn) for c, fn in corpus if c.get("kind") == "lock-protocol"]
+    for k in range(60 if quick else 1500):
+        lock_cases.append(("@lock " + " ".join(gen_lock_events(rl)), "lock%d" % k))
+    rc, limpl = run_lines(hxbin, [c for c, _ in lock_cases], chk.work, "lock_impl", marker="@@")
+    rc2, lmodel = run_lines(mx, [c for c, _ in lock_cases], chk.work, "lock_model")
+    if len(limpl) != len(lock_cases) or len(lmodel) != len(lock_cases):
+        raise RuntimeError("lock output line count mismatch impl=%d model=%d cases=%d" % (len(limpl), len(lmodel), len(lock_cases)))
+    for (case, tag), io, mo in zip(lock_cases, limpl, lmodel):
+        evaluations += 1
+        evs = case.split()[1:]
+        lstats["protocol_cases"] += 1
+        lstats["protocol_events"] += len(evs)
+        want = lock_spec(evs)
+        held = {0: 0, 1: 0}
+        for ev, w in zip(evs, want):
+            p_ = int(ev[:-1])
+            if ev[-1] == "l" and held[p_]:
+                lstats["relock_by_holder"] += 1
+            if w == "got":
+                held[p_] += 1
+            elif w == "ok":
+                held[p_] -= 1
+        if len(evs) >= 4:
+            distinct.add(case)
+        if io.split() != want:
+            d = next((i for i, (a_, b_) in enumerate(zip(io.split(), want)) if a_ != b_), 0)
+            prop_bad.append({"tag": tag, "kind": "lock-protocol", "case": case, "impl_out": io, "model_out": mo, "expected": " ".join(want),
+                             "what": "the lock file is not exclusive: event %d `%s` answered `%s`, an exclusive lock answers `%s` (two processes, Lockfile::lock on one file)" % (d, evs[d] if d < len(evs) else "?", (io.split() + ["?"] * (d + 1))[d], want[d] if d < len(want) else "?")})
+        elif io.split() != mo.split():
+            corr_bad.append({"tag": tag, "kind": "lock-protocol", "case": case, "impl": io, "model": mo})
+    lh_cases = [(c["case"], "corpus:" + fn) for c, fn in corpus if c.get("kind") == "lock-history"]
+    for k in range(12 if quick else 300):
+        lh_cases.append((gen_lock_history(rl, stats), "lockhist%d" % k))
+    rc, lhimpl = run_lines(hxbin, [c for c, _ in lh_cases], chk.work, "lockhist_impl", marker="@@")
+    if len(lhimpl) != len(lh_cases):
+        raise RuntimeError("lock history output line count mismatch impl=%d cases=%d" % (len(lhimpl), len(lh_cases)))
+    for (case, tag), io in zip(lh_cases, lhimpl):
+        evaluations += 1
+        lstats["histories"] += 1
+        hd, ops = split_case(case)
+        distinct.add(case)
+        orc = HistoryOracle()
+        orc.walk(ops, canon_out(io, False))
+        if orc.fail:
+            prop_bad.append({"tag": tag, "kind": "lock-history", "case": case, "what": orc.fail, "impl_out": io})
+    lock_ok = not any(b["kind"].startswith("lock") for b in prop_bad)
     # ---------------------------------------------------------------- (3) crash points under strace
     r3 = rng.fork()
     cstats = {"histories": 0, "calls_recorded": 0, "trace_mismatches": 0, "images": 0, "images_torn": 0,
@@ -1133,7 +1275,7 @@ def run(chk):
         "evaluations": evaluations, "distinct_nontrivial": len(distinct),
         "rule": "one SplitMix64 seed; (1) histories of open/apply/rollover/close/cut/verify/dump with ratios {0,1,2,3,5,10,1000,2^32}, strings from a boundary pool (1..300 bytes, CR inside, '+'/'-' first, the separator itself, control bytes) plus strings the reader cannot take back (empty, non-ASCII of 2/3/4 bytes, trailing CR, newline, keys + - \\n non-ASCII), non-trivial = at least 2 applies; (2) files: valid serialisations, truncations (all lengths for small files / thorough tier, otherwise line boundaries +-2 and random), 12 kinds of malformed mutants incl. invalid UTF-8, '+' and upper-case checksums, CRLF, well-checksummed unwritable lines; non-trivial = more than 16 bytes; (3) crash: histories under strace, images = prefix of recorded calls x cut of MANIFEST's unsynced tail; distinct = distinct case strings / (history, op, calls, cut)",
         "samples": samples,
-        "input_distribution": {"histories": stats, "format": fstats, "crash": cstats},
+        "input_distribution": {"histories": stats, "format": fstats, "crash": cstats, "lock": lstats},
         "corpus_cases": len(corpus),
         "correspondence": "impl (Rust, release + overflow-checks + debug-assertions) vs extracted Coq model vs independent Python oracle (fold of edits, prefix states, chain reader, PyFs replay)",
         "disagreements_impl_vs_model": len(corr_bad), "disagreements_impl_vs_spec": len(prop_bad),
@@ -1149,7 +1291,7 @@ def run(chk):
     })
     chk.assumptions = [
         "file-system semantics as in Mani/Fs.v (see trusted_base); I/O faults (EIO, ENOSPC) are not modelled",
-        "one writer at a time (the lock file is exercised by a probe, not modelled)",
+        "one writer at a time is the theorem C13_lock_exclusive over Mani/Lock.v; its kernel side is the POSIX rule 'closing any descriptor of a file releases the process\'s record locks on it' and 'a record lock has one owning process'; the lock file itself is not deleted or replaced under a live handle",
         "no foreign files named MANIFEST.<x> in the directory; u64 overflow of log_rollover_ratio * size not modelled",
     ]
 
@@ -1237,8 +1379,16 @@ def replay(path):
         orc.walk(ops, canon_out(impl[0], False))
         print("oracle   :", orc.fail or "property holds on this case")
         return 1 if orc.fail else 0
-    if b.get("kind") == "lock":
-        return 0 if impl and impl[0].split(" ;; ")[1:] == ["lock:locked", "", "lock:free"] else 1
+    if b.get("kind") == "lock-protocol":
+        want = lock_spec(case.split()[1:])
+        print("exclusive :", " ".join(want))
+        return 0 if impl and impl[0].split() == want else 1
+    if b.get("kind") == "lock-history":
+        hd, ops = split_case(case)
+        orc = HistoryOracle()
+        orc.walk(ops, canon_out(impl[0], False))
+        print("oracle   :", orc.fail or "property holds on this case")
+        return 1 if orc.fail else 0
     print("expected :", b.get("expected"))
     exp = b.get("expected")
     io = impl[0].strip() if impl else ""
